@@ -542,6 +542,10 @@ class Normaliser:
     def _simple_elem(e: ast.AST) -> bool:
         if isinstance(e, (ast.Tuple, ast.List)):
             return all(Normaliser._simple_elem(x) for x in e.elts)
+        if isinstance(e, ast.Dict):
+            # a row may carry a small dict of constants (keyword arguments kept in the table)
+            return all(k is not None and isinstance(k, ast.Constant) for k in e.keys) and all(
+                isinstance(v, ast.Constant) for v in e.values)
         return isinstance(e, (ast.Constant, ast.Name, ast.Attribute)) and not any(
             isinstance(x, ast.Call) for x in ast.walk(e))
 
@@ -1860,6 +1864,21 @@ class Normaliser:
             def visit_Call(inner, node: ast.Call):
                 nonlocal changed
                 inner.generic_visit(node)
+                # f(a, **{'day': 1}) is f(a, day=1)
+                if any(k.arg is None and isinstance(k.value, ast.Dict) and all(
+                        isinstance(kk, ast.Constant) and isinstance(kk.value, str) and kk.value.isidentifier()
+                        for kk in k.value.keys) for k in node.keywords):
+                    new_kw = []
+                    for k in node.keywords:
+                        if k.arg is None and isinstance(k.value, ast.Dict) and all(
+                                isinstance(kk, ast.Constant) and isinstance(kk.value, str) and kk.value.isidentifier()
+                                for kk in k.value.keys):
+                            new_kw.extend(ast.keyword(arg=kk.value, value=vv) for kk, vv in zip(k.value.keys, k.value.values))
+                        else:
+                            new_kw.append(k)
+                    if len({k.arg for k in new_kw if k.arg}) == len([k for k in new_kw if k.arg]):
+                        node.keywords = new_kw
+                        changed = True
                 # getattr(x, 'name') with a constant, identifier-like name is x.name
                 if isinstance(node.func, ast.Name) and node.func.id == 'getattr' and len(node.args) == 2 \
                         and not node.keywords and isinstance(node.args[1], ast.Constant) \
